@@ -18,7 +18,8 @@ CONSTANTS
   BroadcastDedup = TRUE
   FIX_PruneEmpty = TRUE
   AllowLate = TRUE
-  AtomicCheck = FALSE
+  TrackEvicted = FALSE
+  AtomicCheck = TRUE
   FlipAccounts = {"B"}
   Self = "A"
   LocalPats = {}
